@@ -55,6 +55,8 @@ def ex(e):
         return ["imm", Q(e[1][0]), bool(e[2][0])]
     if k == "lit":
         txt = e[1]
+        if txt.startswith("sizeof"):
+            return ["lit", e[2], False, Q("SZ")]
         hexa = txt.lower().startswith("0x")
         sfx = ""
         body = txt
